@@ -34,10 +34,10 @@ class Check(ReduceBase):
             return f'reduce() raised {obs["err"]}'
         if obs['in'] != obs['struct_in_before'] or obs['out'] != obs['struct_out_before']:
             return f'structures changed by reduce(): in {obs["struct_in_before"]} -> {obs["in"]}, out {obs["struct_out_before"]} -> {obs["out"]}'
+        if obs.get('mat_before') is None:
+            return None  # the unreduced expression itself cannot be applied: outside the property's domain
         if obs.get('mat') is None:
             return f'the reduced operator cannot be applied: {obs.get("mat_error")}'
-        if obs.get('mat_before') is None:
-            return None  # the unreduced expression itself cannot be applied
         if not A.mat_close(obs['mat'], obs['mat_before']):
             return f'dense matrix changed by reduce(): {obs["mat_before"]} -> {obs["mat"]}'
         if not A.mat_close(obs['mat'], obs['mat_reference']):
